@@ -84,6 +84,49 @@ Section Abmd.
   Qed.
 End Abmd.
 
+(* ------------------------------------------------------------------------------------------------ ALB (every carrier) *)
+Section Alb.
+  Context {T : Type} (O : NumOps T).
+
+  Definition alb_inv (c : alb_cfg (T:=T)) (s : alb_state (T:=T)) : Prop := al_loaded s = false.
+  Definition alb_eqv (c : alb_cfg (T:=T)) (s s' : alb_state (T:=T)) : Prop := s = s' /\ al_loaded s = false.
+
+  Ltac alb_ifs := repeat match goal with |- context [if ?b then _ else _] => destruct b end.
+
+  (* every step leaves the "state just loaded" flag off, and reports the energy and force of forceCoupling *)
+  Lemma alb_step_facts c s rel x :
+    al_loaded (fst (alb_step O c s rel x)) = false /\
+    snd (alb_step O c s rel x) = alb_out O c (al_force_c (fst (alb_step O c s rel x))) x.
+  Proof.
+    unfold alb_step. destruct ((rel =? 0) && al_loaded s); [split; reflexivity|].
+    destruct (negb (al_equil s)); cbn zeta; alb_ifs; split; reflexivity.
+  Qed.
+
+  Lemma alb_load_save (s : alb_state (T:=T)) : al_loaded s = false ->
+    mkAlbState (al_set s) (al_cur s) (al_range s) (al_rate s) (al_accum s) (al_mean s) (al_ssd s)
+               (al_calls s) (al_equil s) (al_force_c s) false = s.
+  Proof. destruct s; cbn. intros ->. reflexivity. Qed.
+
+  Theorem alb_resumable : resumable (alb_machine O) (fun _ => True) alb_inv alb_eqv eq eq eq.
+  Proof.
+    constructor; cbn [m_init m_step m_save m_after_save m_load alb_machine].
+    - intros c _. reflexivity.
+    - intros c s it rel x _ _ _. apply alb_step_facts.
+    - intros c s it rel x _ _ _. cbn zeta.
+      destruct (alb_step_facts c s rel x) as [Hl Ho].
+      set (s1 := fst (alb_step O c s rel x)) in *.
+      unfold alb_step at 1 2. unfold alb_load, alb_save. cbn [Z.eqb andb al_loaded al_set al_cur al_range al_rate al_accum
+        al_mean al_ssd al_calls al_equil al_force_c fst snd].
+      rewrite (alb_load_save s1 Hl). repeat split; auto.
+    - intros c s s' it rel rel' x _ [<- Hl] Hr Hr'. unfold alb_eqv.
+      assert (E : forall r, 0 < r -> alb_step O c s r x = alb_step O c s 1 x).
+      { intros r Hp. unfold alb_step. rewrite Hl. rewrite !Bool.andb_false_r. reflexivity. }
+      rewrite (E rel Hr), (E rel' Hr'). repeat split. apply alb_step_facts.
+    - intros c s s' _ [<- _]. reflexivity.
+    - intros c s _ _. unfold alb_load, alb_save. destruct s; reflexivity.
+  Qed.
+End Alb.
+
 (* ------------------------------------------------------------------------------------------------ combinators *)
 Section Pair.
   Context {C1 S1 I1 O1 V1 C2 S2 I2 O2 V2 : Type}
